@@ -726,6 +726,13 @@ pub fn twice_decorated(rng: &mut Rng, core: Option<Act>, key: &SymmetricKey) -> 
     (e, element)
 }
 
+/// an elided placeholder carrying an arbitrary (foreign) digest, obtained the only public way: by decoding
+pub fn elided_with_digest(d: &D32) -> Envelope {
+    let mut b = vec![0xd8, 0xc8, 0x58, 0x20];
+    b.extend_from_slice(d);
+    Envelope::try_from_cbor_data(b).expect("an elided element decodes")
+}
+
 pub fn hexs(b: &[u8]) -> String {
     hex::encode(b)
 }
